@@ -147,7 +147,10 @@ func runPair(ps pairSpec) (res pairResult) {
 	defer cancelAll()
 	var mu sync.Mutex
 	A := &preq{name: "A", d: dag.Chain(ps.NA), g: &gate{ch: make(chan bool)}, gp: ps.AMode == "queued", gh: true, live: true}
-	B := &preq{name: "B", d: dag.Chain(ps.NB), g: &gate{ch: make(chan bool)}, live: true}
+	// newbusy: B's executor is held at the pop gate, so that the cancel (issued before the request exists) is handled at a
+	// point the driver controls; a free-running executor racing the collector's cancel can put the cancel message on the
+	// wire before the request message, an order of two concurrent sends that the one-request model does not contain
+	B := &preq{name: "B", d: dag.Chain(ps.NB), g: &gate{ch: make(chan bool)}, gp: ps.AMode == "newbusy", live: true}
 	res.reqs = [2]*preq{A, B}
 	owner := map[string]*preq{}
 	for _, q := range res.reqs {
